@@ -48,7 +48,7 @@ pub enum Mini {
     Float(f64),
     Str(&'static str),
     Arr(&'static Vec<Mini>),
-    Obj(&'static Vec<(String, Mini)>),
+    Obj(&'static MiniObj),
 }
 
 /// Typed backing store for harness-built containers. CBMC models malloc-ed
@@ -59,18 +59,16 @@ pub enum Mini {
 /// no-op stub and harness values are forgotten).
 pub struct Scratch {
     pub elems: [Mini; 4],
-    pub members: [(String, Mini); 3],
+    pub o: MiniObj,
     pub vec_e: core::mem::MaybeUninit<Vec<Mini>>,
-    pub vec_m: core::mem::MaybeUninit<Vec<(String, Mini)>>,
 }
 
 impl Scratch {
     pub fn new() -> Scratch {
         Scratch {
             elems: [Mini::Null; 4],
-            members: [(String::new(), Mini::Null), (String::new(), Mini::Null), (String::new(), Mini::Null)],
+            o: MiniObj { keys: [String::new(), String::new(), String::new()], vals: [Mini::Null; 3], len: 0 },
             vec_e: core::mem::MaybeUninit::uninit(),
-            vec_m: core::mem::MaybeUninit::uninit(),
         }
     }
     /// array over the first `len` slots of `elems`
@@ -82,14 +80,22 @@ impl Scratch {
             Mini::Arr(&*(self.vec_e.as_ptr()))
         }
     }
-    /// object over the first `len` slots of `members`
-    pub fn obj(&mut self, len: usize) -> Mini {
-        let len = opaque(len);
+    /// array with a concrete length (for code that walks it with iterators)
+    pub fn arr_c(&mut self, len: usize) -> Mini {
         unsafe {
-            let v = Vec::from_raw_parts(self.members.as_mut_ptr(), len, 3);
-            self.vec_m.write(v);
-            Mini::Obj(&*(self.vec_m.as_ptr()))
+            let v = Vec::from_raw_parts(self.elems.as_mut_ptr(), len, 4);
+            self.vec_e.write(v);
+            Mini::Arr(&*(self.vec_e.as_ptr()))
         }
+    }
+    /// object over the first `len` members set with `set`
+    pub fn obj(&mut self, len: usize) -> Mini {
+        self.o.len = opaque(len);
+        unsafe { Mini::Obj(&*(&self.o as *const MiniObj)) }
+    }
+    pub fn set(&mut self, i: usize, key: &str, val: Mini) {
+        self.o.keys[i] = String::from(key);
+        self.o.vals[i] = val;
     }
 }
 
@@ -104,6 +110,20 @@ pub fn opaque(n: usize) -> usize {
     m
 }
 
+/// Object representation: parallel key / value arrays (a tuple array makes the
+/// member discriminants unfoldable for CBMC), `len` members in document order.
+#[derive(Debug)]
+pub struct MiniObj {
+    pub keys: [String; 3],
+    pub vals: [Mini; 3],
+    pub len: usize,
+}
+impl MiniObj {
+    pub fn len(&self) -> usize {
+        self.len
+    }
+}
+
 pub fn leak<T>(v: T) -> &'static T {
     Box::leak(Box::new(v))
 }
@@ -112,9 +132,6 @@ pub fn arr(v: Vec<Mini>) -> Mini {
     Mini::Arr(leak(v))
 }
 
-pub fn obj(v: Vec<(String, Mini)>) -> Mini {
-    Mini::Obj(leak(v))
-}
 
 impl Default for Mini {
     fn default() -> Self {
@@ -172,7 +189,7 @@ macro_rules! mini_eq_level {
                         let mut found = false;
                         let mut j = 0;
                         while j < b.len() {
-                            if str_eq(&a[i].0, &b[j].0) && $inner(&a[i].1, &b[j].1) {
+                            if str_eq(&a.keys[i], &b.keys[j]) && $inner(&a.vals[i], &b.vals[j]) {
                                 found = true;
                             }
                             j += 1;
@@ -207,8 +224,11 @@ mini_eq_level!(mini_eq_1, mini_eq_0);
 mini_eq_level!(mini_eq_2, mini_eq_1);
 
 impl PartialEq for Mini {
+    // one container level (containers of scalars); deeper values are a reported
+    // harness limit. Kept shallow because wherever CBMC cannot fold an operand's
+    // discriminant every arm of every level is explored.
     fn eq(&self, other: &Self) -> bool {
-        mini_eq_2(self, other)
+        mini_eq_1(self, other)
     }
 }
 
@@ -258,8 +278,8 @@ impl Queryable for Mini {
                 // last duplicate wins is irrelevant: harness objects have distinct names
                 let mut i = 0;
                 while i < members.len() {
-                    if str_eq(&members[i].0, key) {
-                        return Some(&members[i].1);
+                    if str_eq(&members.keys[i], key) {
+                        return Some(&members.vals[i]);
                     }
                     i += 1;
                 }
@@ -276,7 +296,16 @@ impl Queryable for Mini {
     }
     fn as_object(&self) -> Option<Vec<(&String, &Self)>> {
         match self {
-            Mini::Obj(v) => Some(v.iter().map(|(k, v)| (k, v)).collect()),
+            Mini::Obj(v) => {
+                // index-based (folds with the opaque lengths used for harness objects)
+                let mut out: Vec<(&String, &Self)> = Vec::with_capacity(v.len());
+                let mut i = 0;
+                while i < v.len() {
+                    out.push((&v.keys[i], &v.vals[i]));
+                    i += 1;
+                }
+                Some(out)
+            }
             _ => None,
         }
     }
@@ -754,7 +783,7 @@ macro_rules! spec_eq_level {
                         let mut found = false;
                         let mut j = 0;
                         while j < y.len() {
-                            if str_eq(&x[i].0, &y[j].0) && $inner(&x[i].1, &y[j].1) {
+                            if str_eq(&x.keys[i], &y.keys[j]) && $inner(&x.vals[i], &y.vals[j]) {
                                 found = true;
                             }
                             j += 1;
@@ -774,7 +803,7 @@ macro_rules! spec_eq_level {
 spec_eq_level!(spec_json_eq_1, spec_json_eq_0);
 spec_eq_level!(spec_json_eq_2, spec_json_eq_1);
 pub fn spec_json_eq(a: &Mini, b: &Mini) -> bool {
-    spec_json_eq_2(a, b)
+    spec_json_eq_1(a, b)
 }
 
 /// None = the empty nodelist ("nothing")
@@ -842,6 +871,15 @@ pub fn tvec<T>(buf: &mut [T], len: usize) -> Vec<T> {
     unsafe { Vec::from_raw_parts(buf.as_mut_ptr(), opaque(len), cap) }
 }
 
+/// Vec over typed (stack) storage with a *concrete* length. Empirical rule
+/// (measured, see DESIGN): containers the code under test walks with slice
+/// iterators fold best with a concrete length; containers it indexes (`a[i]`)
+/// fold best with an opaque one.
+pub fn cvec<T>(buf: &mut [T], len: usize) -> Vec<T> {
+    let cap = buf.len();
+    unsafe { Vec::from_raw_parts(buf.as_mut_ptr(), len, cap) }
+}
+
 /// nodelist of the first k elements of `nodes` (k concrete), as the evaluator's Data
 pub fn refs_of<'a>(nodes: &'a [Mini; 4], buf: &mut [core::mem::MaybeUninit<Pointer<'a, Mini>>; 4], k: usize) -> Data<'a, Mini> {
     let mut i = 0;
@@ -849,7 +887,7 @@ pub fn refs_of<'a>(nodes: &'a [Mini; 4], buf: &mut [core::mem::MaybeUninit<Point
         buf[i].write(Pointer::new(&nodes[i], String::from("p")));
         i += 1;
     }
-    let v = unsafe { Vec::from_raw_parts(buf.as_mut_ptr() as *mut Pointer<'a, Mini>, opaque(k), 4) };
+    let v = unsafe { Vec::from_raw_parts(buf.as_mut_ptr() as *mut Pointer<'a, Mini>, k, 4) };
     Data::Refs(v)
 }
 
@@ -888,4 +926,233 @@ pub fn sym_scalar(buf: &mut [u8], at: usize, w: usize) {
 /// &'static str over a typed stack buffer (harness values are never freed / outlived).
 pub fn str_over(buf: &[u8], len: usize) -> &'static str {
     unsafe { core::mem::transmute::<&str, &'static str>(core::str::from_utf8_unchecked(core::slice::from_raw_parts(buf.as_ptr(), len))) }
+}
+
+// ---------------------------------------------------------------------------
+// AST construction. CBMC constant-folds enum discriminants only up to two
+// levels of enum-in-enum nesting (enums are struct{tag, union}); at three
+// levels (Comparison -> Comparable -> Literal) every arm is explored. Under
+// cfg(kani) the AST enums are repr(u8), whose layout is defined (RFC 2195:
+// a union of repr(C) structs, each starting with the u8 tag, fields in
+// declaration order), so the outermost level is written as a repr(C) mirror
+// struct and viewed through a pointer cast. `ast_layout_sanity` checks the tags.
+use crate::parser::model::{Comparable, Comparison, Filter, FilterAtom, Literal, Segment, Selector, Test};
+
+use crate::parser::model::{FnArg, SingularQuery, SingularQuerySegment, TestFunction};
+pub const CMPB_SIZE: usize = core::mem::size_of::<Comparable>();
+pub const SQS_SIZE: usize = core::mem::size_of::<SingularQuerySegment>();
+const _: () = assert!(core::mem::align_of::<Comparable>() == 8);
+
+/// Comparable::Literal(lit)
+#[repr(C)]
+pub struct MCLit {
+    pub tag: u8,
+    pub lit: Literal,
+    pub pad: [u8; CMPB_SIZE - 8 - core::mem::size_of::<Literal>()],
+}
+/// Comparable::SingularQuery(SingularQuery::{Current,Root}(segments))
+#[repr(C)]
+pub struct MCSq {
+    pub tag: u8,
+    pub _a0: [u64; 0],
+    pub sq_tag: u8,
+    pub _a: [u64; 0],
+    pub segs: Vec<SingularQuerySegment>,
+    pub pad: [u8; CMPB_SIZE - 16 - core::mem::size_of::<Vec<SingularQuerySegment>>()],
+}
+/// Comparable::Function(tf) with a real TestFunction
+#[repr(C)]
+pub struct MCFn {
+    pub tag: u8,
+    pub tf: TestFunction,
+    pub pad: [u8; CMPB_SIZE - 8 - core::mem::size_of::<TestFunction>()],
+}
+pub fn mc_lit(lit: Literal) -> MCLit {
+    MCLit { tag: 0, lit, pad: [0; CMPB_SIZE - 8 - core::mem::size_of::<Literal>()] }
+}
+pub const SQ_CURRENT: u8 = 0;
+pub const SQ_ROOT: u8 = 1;
+pub fn mc_sq(sq_tag: u8, segs: Vec<SingularQuerySegment>) -> MCSq {
+    MCSq { tag: 2, _a0: [], sq_tag, _a: [], segs, pad: [0; CMPB_SIZE - 16 - core::mem::size_of::<Vec<SingularQuerySegment>>()] }
+}
+pub fn mc_fn(tf: TestFunction) -> MCFn {
+    MCFn { tag: 1, tf, pad: [0; CMPB_SIZE - 8 - core::mem::size_of::<TestFunction>()] }
+}
+/// SingularQuerySegment mirrors
+#[repr(C)]
+pub struct MSqsName {
+    pub tag: u8,
+    pub name: String,
+}
+#[repr(C)]
+pub struct MSqsIndex {
+    pub tag: u8,
+    pub idx: i64,
+    pub pad: [u8; SQS_SIZE - 16],
+}
+const _: () = assert!(core::mem::size_of::<MSqsName>() == SQS_SIZE);
+pub fn m_sqs_name(s: &str) -> MSqsName {
+    MSqsName { tag: 1, name: String::from(s) }
+}
+pub fn m_sqs_index(i: i64) -> MSqsIndex {
+    MSqsIndex { tag: 0, idx: i, pad: [0; SQS_SIZE - 16] }
+}
+pub fn sqs_vec<M>(first: &mut M, count: usize) -> Vec<SingularQuerySegment> {
+    unsafe { Vec::from_raw_parts(first as *mut M as *mut SingularQuerySegment, count, count) }
+}
+/// the empty segment list, as a Vec over typed storage (Vec::new()'s dangling
+/// pointer is read under a false guard by unrolled iterators)
+pub fn sqs_empty(slot: &mut MSqsIndex) -> Vec<SingularQuerySegment> {
+    unsafe { Vec::from_raw_parts(slot as *mut MSqsIndex as *mut SingularQuerySegment, 0, 1) }
+}
+
+/// Comparison::<op>(a, b): A and B are padded Comparable mirrors
+#[repr(C)]
+pub struct MCmp<A, B> {
+    pub tag: u8,
+    pub a: A,
+    pub b: B,
+}
+pub const OP_EQ: u8 = 0;
+pub const OP_NE: u8 = 1;
+pub const OP_GT: u8 = 2;
+pub const OP_GTE: u8 = 3;
+pub const OP_LT: u8 = 4;
+pub const OP_LTE: u8 = 5;
+const _: () = assert!(core::mem::size_of::<MCmp<MCLit, MCSq>>() == core::mem::size_of::<Comparison>());
+const _: () = assert!(core::mem::size_of::<MCLit>() == CMPB_SIZE && core::mem::size_of::<MCSq>() == CMPB_SIZE && core::mem::size_of::<MCFn>() == CMPB_SIZE);
+
+pub fn as_cmp<A, B>(r: &MCmp<A, B>) -> &Comparison {
+    unsafe { &*(r as *const MCmp<A, B> as *const Comparison) }
+}
+pub fn cmp_box<A, B>(r: &mut MCmp<A, B>) -> Box<Comparison> {
+    unsafe { Box::from_raw(r as *mut MCmp<A, B> as *mut Comparison) }
+}
+pub const PAD_LIT: Comparable = Comparable::Literal(Literal::Null);
+pub const PADF: Filter = Filter::Or(Vec::new());
+pub const PAD_SEG: Segment = Segment::Selector(Selector::Wildcard);
+pub const PAD_SEL: Selector = Selector::Wildcard;
+
+// ---- mirrors for segments / selectors (see CmpRepr) --------------------------
+pub const SEG_DESC: u8 = 0;
+pub const SEG_SEL: u8 = 1;
+pub const SEG_SELS: u8 = 2;
+pub const SEL_NAME: u8 = 0;
+pub const SEL_WILD: u8 = 1;
+pub const SEL_INDEX: u8 = 2;
+pub const SEL_SLICE: u8 = 3;
+pub const SEL_FILTER: u8 = 4;
+pub const SEG_SIZE: usize = core::mem::size_of::<Segment>();
+pub const SEL_SIZE: usize = core::mem::size_of::<Selector>();
+const _: () = assert!(core::mem::align_of::<Segment>() == 8 && core::mem::align_of::<Selector>() == 8);
+const _: () = assert!(SEG_SIZE == SEL_SIZE + 8);
+
+/// Selector mirror, padded to the size of Selector: tag, then up to three 16-byte
+/// fields (Name: String = 24 bytes is covered by w0..; see the typed views below).
+#[repr(C)]
+pub struct MSelName {
+    pub tag: u8,
+    pub name: String,
+    pub pad: [u8; SEL_SIZE - 8 - core::mem::size_of::<String>()],
+}
+#[repr(C)]
+pub struct MSelIndex {
+    pub tag: u8,
+    pub idx: i64,
+    pub pad: [u8; SEL_SIZE - 16],
+}
+#[repr(C)]
+pub struct MSelWild {
+    pub tag: u8,
+    pub _a: [u64; 0],
+    pub pad: [u8; SEL_SIZE - 8],
+}
+#[repr(C)]
+pub struct MSelSlice {
+    pub tag: u8,
+    pub start: Option<i64>,
+    pub end: Option<i64>,
+    pub step: Option<i64>,
+    pub pad: [u8; SEL_SIZE - 8 - 3 * core::mem::size_of::<Option<i64>>()],
+}
+#[repr(C)]
+pub struct MSelFilter {
+    pub tag: u8,
+    pub f: Filter,
+    pub pad: [u8; SEL_SIZE - 8 - core::mem::size_of::<Filter>()],
+}
+/// Segment::Selector(<selector mirror>) - S must be one of the padded mirrors above
+#[repr(C)]
+pub struct MSeg<S> {
+    pub tag: u8,
+    pub sel: S,
+}
+pub fn m_name(s: &str) -> MSeg<MSelName> {
+    MSeg { tag: SEG_SEL, sel: MSelName { tag: SEL_NAME, name: String::from(s), pad: [0; SEL_SIZE - 8 - core::mem::size_of::<String>()] } }
+}
+pub fn m_index(i: i64) -> MSeg<MSelIndex> {
+    MSeg { tag: SEG_SEL, sel: MSelIndex { tag: SEL_INDEX, idx: i, pad: [0; SEL_SIZE - 16] } }
+}
+pub fn m_wild() -> MSeg<MSelWild> {
+    MSeg { tag: SEG_SEL, sel: MSelWild { tag: SEL_WILD, _a: [], pad: [0; SEL_SIZE - 8] } }
+}
+pub fn m_slice(a: Option<i64>, b: Option<i64>, c: Option<i64>) -> MSeg<MSelSlice> {
+    MSeg { tag: SEG_SEL, sel: MSelSlice { tag: SEL_SLICE, start: a, end: b, step: c, pad: [0; SEL_SIZE - 8 - 3 * core::mem::size_of::<Option<i64>>()] } }
+}
+pub fn m_filter(f: Filter) -> MSeg<MSelFilter> {
+    MSeg { tag: SEG_SEL, sel: MSelFilter { tag: SEL_FILTER, f, pad: [0; SEL_SIZE - 8 - core::mem::size_of::<Filter>()] } }
+}
+/// view `count` consecutive segment mirrors starting at `first` as Vec<Segment>
+pub fn seg_vec<M>(first: &mut M, count: usize) -> Vec<Segment> {
+    unsafe { Vec::from_raw_parts(first as *mut M as *mut Segment, count, count) }
+}
+pub fn as_seg<M>(m: &M) -> &Segment {
+    unsafe { &*(m as *const M as *const Segment) }
+}
+
+/// view `count` consecutive selector mirrors starting at `first` as Vec<Selector>
+pub fn sel_vec<M>(first: &mut M, count: usize) -> Vec<Selector> {
+    unsafe { Vec::from_raw_parts(first as *mut M as *mut Selector, count, count) }
+}
+pub fn ms_index(i: i64) -> MSelIndex {
+    MSelIndex { tag: SEL_INDEX, idx: i, pad: [0; SEL_SIZE - 16] }
+}
+pub fn ms_wild() -> MSelWild {
+    MSelWild { tag: SEL_WILD, _a: [], pad: [0; SEL_SIZE - 8] }
+}
+pub fn ms_slice(a: Option<i64>, b: Option<i64>, c: Option<i64>) -> MSelSlice {
+    MSelSlice { tag: SEL_SLICE, start: a, end: b, step: c, pad: [0; SEL_SIZE - 8 - 3 * core::mem::size_of::<Option<i64>>()] }
+}
+pub fn ms_name(s: &str) -> MSelName {
+    MSelName { tag: SEL_NAME, name: String::from(s), pad: [0; SEL_SIZE - 8 - core::mem::size_of::<String>()] }
+}
+#[repr(C)]
+pub struct Pair<A, B> {
+    pub a: A,
+    pub b: B,
+}
+#[repr(C)]
+pub struct Triple<A, B, C> {
+    pub a: A,
+    pub b: B,
+    pub c: C,
+}
+/// Segment::Selectors(vec) / Segment::Descendant(box) mirrors
+#[repr(C)]
+pub struct MSegSels {
+    pub tag: u8,
+    pub sels: Vec<Selector>,
+    pub pad: [u8; SEG_SIZE - 8 - core::mem::size_of::<Vec<Selector>>()],
+}
+pub fn m_sels(v: Vec<Selector>) -> MSegSels {
+    MSegSels { tag: SEG_SELS, sels: v, pad: [0; SEG_SIZE - 8 - core::mem::size_of::<Vec<Selector>>()] }
+}
+#[repr(C)]
+pub struct MSegDesc {
+    pub tag: u8,
+    pub inner: Box<Segment>,
+    pub pad: [u8; SEG_SIZE - 16],
+}
+pub fn m_desc<M>(inner: &mut M) -> MSegDesc {
+    MSegDesc { tag: SEG_DESC, inner: unsafe { Box::from_raw(inner as *mut M as *mut Segment) }, pad: [0; SEG_SIZE - 16] }
 }
